@@ -10,6 +10,8 @@ EXTENDS AsmCore
 
 CONSTANTS
     Alphabet,       \* set of abstract lines a generative instance may append
+    Blocks,         \* set of line SEQUENCES a generative instance may append in one step (structured programs: whole
+                    \* included files, routines ...), so that long programs of a given shape are enumerated exhaustively
     MaxLen          \* bound on program length (generative instances)
 
 VARIABLES prog, rd, phase, res
@@ -46,6 +48,16 @@ Read(l) ==
     /\ rd' = ReadStep(rd, l)
     /\ UNCHANGED <<phase, res>>
 
+RECURSIVE FoldBlock(_, _)
+FoldBlock(r, b) == IF b = <<>> THEN [ok |-> TRUE, r |-> r]
+                   ELSE IF r.status # "run" \/ ~Admissible(Head(b), r) THEN [ok |-> FALSE, r |-> r]
+                   ELSE FoldBlock(ReadStep(r, Head(b)), Tail(b))
+ReadBlock(b) ==
+    /\ phase = "read" /\ rd.status = "run" /\ Len(prog) + Len(b) <= MaxLen
+    /\ LET f == FoldBlock(rd, b) IN f.ok /\ rd' = f.r
+    /\ prog' = prog \o b
+    /\ UNCHANGED <<phase, res>>
+
 Finishable(r) == r.status # "run" \/ (r.fstk = <<>> /\ r.cstk = <<>>)
 
 Finish ==
@@ -54,7 +66,7 @@ Finish ==
     /\ res' = Assemble(rd)
     /\ UNCHANGED <<prog, rd>>
 
-Next == (\E l \in Alphabet : Read(l)) \/ Finish
+Next == (\E l \in Alphabet : Read(l)) \/ (\E b \in Blocks : ReadBlock(b)) \/ Finish
 
 Spec == Init /\ [][Next]_vars
 
